@@ -36,13 +36,6 @@ func init() {
 	RegisterSub("C07", "files", RunC07Files)
 }
 
-// c07BooleanWriteSideRepaired selects which Lean write side the boolean L2 comparisons expect:
-// false = the mirror of the code as it stands (EncodeBoolean hashes the bit-packed bytes, finding F3;
-// theorems hash_sides_disagree_boolean / boolean_false_negative_on_mirror), true = the repaired write
-// side `hashWriteRepaired` (theorems hash_sides_agree_repaired / written_value_is_found_repaired).
-// Flip it together with a `fix:` of EncodeBoolean in the library.
-const c07BooleanWriteSideRepaired = true
-
 const c07Rule = "pure: hashed input or inserted hash list non-empty; files: the checked column chunk holds at least one non-null value and a filter"
 
 // c07Batch pipelines driver requests with a callback per answer.
@@ -215,6 +208,9 @@ func RunC07Pure(ctx *core.Ctx) {
 			}
 			for i := 0; i < nEnc; i++ {
 				c07EncCase(ctx, b, r)
+			}
+			for i := 0; i < nEnc; i++ {
+				c07SizeCase(ctx, b, r)
 			}
 			b.flush()
 		}(wi)
@@ -646,17 +642,12 @@ func c07EncCase(ctx *core.Ctx, b *c07Batch, r *rand.Rand) {
 		return
 	}
 	got := "ok " + core.Hex(dst)
-	if kind == "boolean" {
-		c07BoolL2(ctx, b, req, strings.Replace(req, "bloom.enc boolean", "bloom.enc booleanfixed", 1), got, "encode-vs-hashwrite-boolean", nil)
-		goto probe
-	}
 	b.add(req, func(resp string) {
 		if resp != got {
 			ctx.Fail("L2", "encode-vs-hashwrite-"+label, "filter bytes after splitBlockEncoding.Encode* differ from the model write side",
 				map[string]any{"request": req, "go": got, "lean": resp, "variant": ctx.Variant})
 		}
 	})
-probe:
 	ph := parquet.VerifBloomValueHash(probe)
 	b.add(probeReq, func(resp string) {
 		if resp != "ok "+strconv.FormatUint(ph, 10) {
@@ -673,34 +664,33 @@ func c07BytesTok(b []byte) string {
 	return core.Hex(b)
 }
 
-// c07BoolL2 compares boolean filter bytes with the mirror of the code as it stands (packed bytes are
-// hashed); when they differ but equal the repaired write side of the model, the library was repaired
-// and the mirror (`hashWrite (.boolean _)` in Bloom.lean, with the negation theorems) must follow.
-func c07BoolL2(ctx *core.Ctx, b *c07Batch, reqAsIs, reqFixed, got, key string, detail map[string]any) {
-	var asIs string
-	b.add(reqAsIs, func(resp string) { asIs = resp })
-	b.add(reqFixed, func(resp string) {
-		if c07BooleanWriteSideRepaired {
-			if resp != got {
-				d := map[string]any{"request": reqFixed, "go": got, "lean_as_is": asIs, "lean_repaired": resp}
-				for k, v := range detail {
-					d[k] = v
-				}
-				ctx.Fail("L2", key, "boolean filter bytes differ from the repaired write side of the model", d)
-			}
-			return
-		}
-		if asIs == got {
-			return
-		}
-		d := map[string]any{"request": reqAsIs, "go": got, "lean_as_is": asIs, "lean_repaired": resp}
-		for k, v := range detail {
-			d[k] = v
-		}
-		if resp == got {
-			ctx.Fail("L2", "boolean-write-side-repaired-mirror-is-stale", "boolean filter bytes equal the model's REPAIRED write side, not the mirror of the packed-byte hashing: update hashWrite (.boolean) and the boolean theorems", d)
-		} else {
-			ctx.Fail("L2", key, "boolean filter bytes differ from both the as-is mirror and the repaired write side of the model", d)
+// filter sizing: bloom.NumSplitBlocksOf and splitBlockFilter.Size vs the 64-bit mirror (wraparound included)
+func c07SizeCase(ctx *core.Ctx, b *c07Batch, r *rand.Rand) {
+	var n int64
+	switch r.Intn(6) {
+	case 0:
+		n = []int64{0, 1, 2, 25, 26, 255, 256, 257, 1 << 31, 1<<31 - 1, 1 << 32, math.MaxInt64, -1}[r.Intn(13)]
+	case 1:
+		n = int64(r.Uint64() >> uint(r.Intn(64)))
+	default:
+		n = int64(r.Intn(100000))
+	}
+	bits := []uint{0, 1, 2, 4, 7, 8, 9, 10, 10, 16, 33, 64, 255, 256, 257, 1 << 32}[r.Intn(16)]
+	got := bloom.NumSplitBlocksOf(n, bits)
+	req := fmt.Sprintf("bloom.blocks %d %d", uint64(n), bits)
+	ctx.Case(req, n > 0 && bits > 0)
+	ctx.Hist("pure.op", "NumSplitBlocksOf")
+	if sz := parquet.SplitBlockFilter(bits, "x").Size(n); sz != bloom.BlockSize*got {
+		ctx.Fail("L2", "size-vs-numsplitblocks", fmt.Sprintf("splitBlockFilter.Size = %d, 32*NumSplitBlocksOf = %d", sz, bloom.BlockSize*got), req)
+	}
+	if n >= 1 && bits >= 1 && uint64(n) < 1<<40 && bits <= 256 && got < 1 {
+		ctx.Fail("L1", "filter-size-zero-blocks", "NumSplitBlocksOf gives no block for at least one value and one bit per value", req)
+	}
+	b.add(req, func(resp string) {
+		// int(numBlocks): compare as uint64 of the int
+		if resp != "ok "+strconv.FormatUint(uint64(got), 10) {
+			ctx.Fail("L2", "numsplitblocks-vs-mirror", "bloom.NumSplitBlocksOf differs from the Lean mirror",
+				map[string]any{"request": req, "go": uint64(got), "lean": resp})
 		}
 	})
 }
